@@ -63,9 +63,11 @@ impl std::ops::Sub for ExBudget {
     type Output = Self;
 
     fn sub(self, rhs: Self) -> Self::Output {
+        // A builtin cost can saturate at i64::MAX and leave the remaining budget close to
+        // i64::MIN: `initial - remaining` (EvalResult::cost) must saturate too, not overflow.
         ExBudget {
-            mem: self.mem - rhs.mem,
-            cpu: self.cpu - rhs.cpu,
+            mem: self.mem.saturating_sub(rhs.mem),
+            cpu: self.cpu.saturating_sub(rhs.cpu),
         }
     }
 }
